@@ -80,6 +80,20 @@ ArrayRef<double> RecBackend::GetObjectiveValues() {
   return std::vector<double>(st_.nobjs, 0.0);
 }
 
+void RecBackend::InputExtras() {
+  BaseBackend::InputExtras();
+  if (!std::getenv("RECSOLVER_C04")) return;
+  // as GurobiBackend::InputGurobiFuncApproxParams: a model suffix on constraints/objectives is presolved onto
+  // the solver's items; log what arrives per delivered constraint group
+  for (const char *name : {"funcpieces", "c04int"}) {
+    if (auto mv0 = ReadModelSuffixInt({name, suf::Kind::CON_BIT | suf::Kind::OBJ_BIT})) {
+      auto mv = GetValuePresolver().PresolveGenericInt(mv0);
+      st_.Log(std::string("{\"ev\":\"modelsuffix\",\"name\":\"") + name + "\",\"src\":{" + rec_c04::mvals<int>(mv0) +
+              "},\"pre\":{" + rec_c04::mvals<int>(mv) + "}}");
+    }
+  }
+}
+
 void RecBackend::DumpGraphOnce() {
   if (st_.graph_dumped || !std::getenv("RECSOLVER_C04")) return;
   st_.graph_dumped = true;
@@ -168,10 +182,13 @@ void RecBackend::MarkLazyOrUserCuts(ArrayRef<int> l) {
 
 IIS RecBackend::GetIIS() {
   if (!st_.have_iisvar && !st_.have_iiscon) return {};
-  auto mv = GetValuePresolver().PostsolveIIS({st_.iisvar, {{{CG_Linear, st_.iiscon}}}});
+  std::map<int, std::vector<int> > cmap = st_.iiscon_g;     // other groups (script `iiscong`), e.g. CG_General
+  cmap[CG_Linear] = st_.iiscon;
+  auto mv = GetValuePresolver().PostsolveIIS({st_.iisvar, {std::move(cmap)}});
   std::vector<int> v = mv.GetVarValues()(), c = mv.GetConValues()();
   st_.Log("{\"ev\":\"iis_out\",\"var\":" + rec::ints(v) + ",\"con\":" + rec::ints(c) +
-          ",\"solver_var\":" + rec::ints(st_.iisvar) + ",\"solver_con\":" + rec::ints(st_.iiscon) + "}");
+          ",\"solver_var\":" + rec::ints(st_.iisvar) + ",\"solver_con\":" + rec::ints(st_.iiscon) +
+          ",\"solver_con_g\":" + rec_c04::vmap<int>(pre::ValueMapInt(st_.iiscon_g)) + "}");
   return {v, c};
 }
 
